@@ -374,6 +374,14 @@ def r5(ctx):
                     psl = f.slice_op(f.term(pb)["args"][1])
                     if psl.has_call(UPPER) or 2 not in psl.params or [c for c in psl.callee_names() if not re.search(LOWERC + r"|ToString::to_string$|to_owned$|ToOwned::to_owned$|String::from$|From::from$|Into::into$|Deref::deref$", c)]:
                         weak.append("the stored name is not the argument (as given or lower-cased)")
+            if op == "add" and not weak:
+                # ... and an existing entry that DIFFERS never ends the scan: from the Some edge of the scan loop the push is
+                # still reachable (`if true { return }` / an unconditional return inside the loop drops every later add)
+                for nb_, nt_ in f.calls(r"Iterator::next$"):
+                    st_ = f.term(nt_["target"]) if nt_.get("target") is not None else None
+                    some_ = [bb for v, bb in st_["targets"] if v == 1] if st_ and st_["k"] == "switch" else []
+                    if some_ and pushes_ and not any(f.reachable(some_[0], pb) for pb in pushes_):
+                        weak.append("the scan of the existing entries returns on the first entry whatever it is")
             if op == "remove":
                 # retain(|h| lower(h) != lower(argument)): both sides in the same (lower) case, entries that DIFFER are kept
                 rt = f.calls(r"Vec::<T, A>::retain$")
@@ -423,6 +431,10 @@ def r5(ctx):
             if pl not in sl.locals or sl.locals & others:
                 okc = False
                 yield VIOL("C05-R5", "ctor/%s/%s" % (cp, fname), "field `%s` is not initialised from the like-named parameter only" % fname, where=loc(ag[2]["span"]))
+            trunc = [c_ for c_ in sl.callee_names() if re.search(r"Iterator::(take|skip|take_while|skip_while|step_by|filter|filter_map|nth|last|find|dedup\w*|peekable|fuse|scan|map_while)$|slice::<impl \[T\]>::(first|last|get|split_\w+|chunks\w*|windows)$|Vec::<T, A>::(truncate|pop|remove|retain|drain|dedup\w*)$", c_)]
+            if trunc:
+                okc = False
+                yield VIOL("C05-R5", "ctor/%s/%s/truncated" % (cp, fname), "field `%s` does not receive every entry of the parameter (passes through %s): a declared requirement is dropped at construction" % (fname, sorted(set(x.split("::")[-1] for x in trunc))), where=loc(ag[2]["span"]))
         n += 1
         if okc:
             yield PASS("C05-R5", "ctor/" + cp, "each list initialised from the like-named parameter", [loc(f.j["span"])])
